@@ -905,7 +905,7 @@ func TestVerifStream(t *testing.T) {
 	all := stAllScenarios()
 	reps := int64(6)
 	if env.Tier == "thorough" {
-		reps = 40
+		reps = 120
 	}
 	total := int64(len(all)) * reps
 	out.Extra["scenarios"] = int64(0)
@@ -988,7 +988,7 @@ func TestVerifRaceStream(t *testing.T) {
 	out := vNewOut(env, "race-stream")
 	n := int64(2000)
 	if env.Tier == "thorough" {
-		n = 30000
+		n = 150000
 	}
 	var streams, sends, recvs, bys int64
 	for _, idx := range env.vCases(n) {
